@@ -82,6 +82,49 @@ CLAIMS = {
         note="Trusts that SymPy treats differently named symbols as distinct under subs/solve/diff. One frozen exception (IndexedSymbol re-created "
              "from an existing SymPy symbol). One defect found and repaired (clone_as_function dropped assumptions).",
         technique="backward slices of constructor name arguments; who-may-write; sibling agreement of clone helpers", ref="DESIGN.md §2 C09"),
+    "C10": dict(
+        text="core/vectors/arithmetics.py is evaluated abstractly over generic component indeterminates for every length combination "
+             "0..3 x 0..3 (x 0..3) and every coordinate-system identity/kind combination - exactly the property's quantifier. Component "
+             "formulas equal the reference on zero-extended operands in exact normal form, the listed vector-space / dot / cross / "
+             "projection / unit laws are decided on the evaluated results themselves, and the refusals end in a raise. 521 obligations.",
+        note="Not decided: what SymPy does to symbolic components (sympify, automatic evaluation). The abstract evaluator supports the "
+             "python subset used by this file; anything else is ANALYSIS-ERROR.",
+        technique="abstract evaluation of the source over symbolic components + exact polynomial/rational normal form", ref="DESIGN.md §2 C10"),
+    "C11": dict(
+        text="The five transformation tuples are read from the source and decided equal to the library's documented convention in exact normal "
+             "form (angles via sine and cosine), Cartesian->curvilinear->Cartesian is the identity; the curvilinear dot/scale/magnitude "
+             "formulas equal the Cartesian operation on the re-expressed components for lengths 0..3; cylindrical<->spherical falls through "
+             "to a raise; the fields' (point class, system) refusal table is complete and dominates the evaluation; rebase substitutes all "
+             "three scalars in the right direction.",
+        note="sympy.vector.express and singular points are not decided; radial coordinates assumed non-negative.",
+        technique="formula tables read from the AST + exact algebra; CFG dominance for refusals", ref="DESIGN.md §2 C11"),
+    "C12": dict(
+        text="All 27 components of the nine closed-form operator formulas are decided equal to the orthogonal-curvilinear (Lame) reference for "
+             "GENERIC undefined fields - hence for every twice-differentiable field - in an exact differential normal form; curl(grad f)=0 "
+             "and div(curl F)=0 are decided by composing the repository's own formulas; zero padding is checked structurally.",
+        note="Trusted: the Lame-coefficient form of the operators and this library's coordinate orderings (cross-checked against its own "
+             "transformation table by C11/T6). Behaviour-preserving algebraic rewrites do not fire.",
+        technique="formal derivation + exact normal form of rational functions with sin^2+cos^2=1 over formulas read from the AST", ref="DESIGN.md §2 C12"),
+    "C14": dict(
+        text="The six product-rewrite rules, the repeated-operand shortcuts and the mixed-product expansion are decided as polynomial "
+             "identities in the components of generic real 3-vectors (so for every assignment), the permutation-sign discipline of the three "
+             "products is checked, and every _eval_derivative equals the formal derivative for generic vector functions.",
+        note="Not decided: the multilinear expansion engine (_ordered_mul/into_terms/split_factor run SymPy's expand), termination of .diff, "
+             "id()-order independence beyond the sign rule. One defect found and repaired (Binet-Cauchy term).",
+        technique="rewrite rules read from branch conditions/returns, expanded to components, exact polynomial identity test", ref="DESIGN.md §2 C14"),
+    "C15": dict(
+        text="The twelve conversion tables and three Lame triples are decided mutually consistent: position maps commute with every scalar "
+             "conversion (gives direct = via third system and round trips on the charts), base-vector tables are orthonormal rotations, "
+             "inverse to each other and equal to the normalised position derivatives, Lame coefficients are the lengths of the position "
+             "derivatives; point/vector conversion wiring and the TypeError fall-through are checked. 133 obligations.",
+        note="atan2 branch/range behaviour at singular sets is not decided; inequalities are reported only with a numeric witness.",
+        technique="dict/tuple literals read into terms; exact algebra with radicals and sin/cos of atan2/acos", ref="DESIGN.md §2 C15"),
+    "C16": dict(
+        text="Refusals by CFG dominance; the rearrangement formula is decided in a finite-sum abstraction: for every length 1..4 and every "
+             "position of the unknown, with generic vectors and coefficients, the returned equation satisfies lhs - rhs = expr/scale (or "
+             "-expr), i.e. it is equivalent to the input for all coefficient values.",
+        note="Assumes into_terms/split_factor return the (vector, coefficient) decomposition; solve_for_scalar's solver and vector_equals' simplify are trusted.",
+        technique="CFG dominance + abstract evaluation of the formula tail over generic coefficients + exact normal form", ref="DESIGN.md §2 C16"),
     "C18": dict(
         text="Only the well-formedness clause: by induction over the custom LaTeX printer, every emitted template (26) and every display_latex/"
              "subscript literal embedded verbatim (870+) is brace- and \\left/\\right-balanced, so concatenations of balanced sub-results stay balanced.",
